@@ -719,7 +719,7 @@ MIME_OPT = [{'name': 'sgd', 'lr_exp': 0, 'momentum': 0},
             {'name': 'momentum', 'lr_exp': 1, 'momentum': 4},
             {'name': 'adam', 'lr_exp': 2, 'momentum': 0}]
 MIME_CLIP_EXP = [-10, -3, -2, 10]
-MIME_CLIP = [2.0 ** e for e in MIME_CLIP_EXP] + [0.0]   # index 4: bound 0, all clipped away
+MIME_CLIP = [2.0 ** e for e in MIME_CLIP_EXP] + [0.0, 2.0 ** -30]   # index 4: bound 0, all clipped away; 5: a tiny bound
 MIME_SERVER_LR = [1.0, 0.5, 2.0]
 
 
@@ -1032,6 +1032,8 @@ AG_PRESETS = [_ag_preset(i) for i in range(9)]
 APFL_PRESETS = [_apfl_preset(i) for i in range(7)]
 HYP_PRESETS = [_hyp_preset(i) for i in range(5)]
 MIME_PRESETS = [_mime_preset(i) for i in range(7)]
+# a bound of 2^-30 (plain SGD, server lr 1): used with updates of about that size
+MIME_TINY = {'opt': 0, 'clip': 5, 'slr': 0, 'gbs': 2, 'buckets': 1, 'batch': preset_batch(4)}
 
 
 def draw_hp(draw, tier, presets, free):
@@ -1129,7 +1131,14 @@ def mime_cases(draw, tier):
   # squared norm of the update overflows float32 (2^68 and up) or just does not
   # (2^40 .. 2^64).  Only with base optimizers that keep no squared gradients
   # (Adam's second moment would overflow, which the property does not cover).
-  if MIME_OPT[case['hp']['opt']]['name'] != 'adam' and draw(st.sampled_from([0, 0, 0, 1])):
+  if draw(st.integers(0, 7)) == 0:
+    # everything tiny: clip bound 2^-30, zero initial parameters, targets of
+    # magnitude 2^-28 -- client updates of a few bounds, to be clipped like any
+    case['hp'] = json.loads(json.dumps(MIME_TINY))
+    case['p0'] = [0] * len(case['p0'])
+    for c in case['pool']:
+      c['yexp'] = -28
+  elif MIME_OPT[case['hp']['opt']]['name'] != 'adam' and draw(st.sampled_from([0, 0, 0, 1])):
     full = [i for i, c in enumerate(case['pool']) if c['rows']]
     case['pool'][draw(st.sampled_from(full))]['yexp'] = draw(st.sampled_from([68, 72, 64, 40, 60, 80, 100]))
   return case
